@@ -481,8 +481,8 @@ def diagnose_key(cfg, x, y, full):
     """stable key for a sensitivity failure: name the faulty mechanism if it can be identified on the
     implementation alone, otherwise the bare configuration signature"""
     s = cfg["spec"]
-    if s["arch"] == "bn":
-        if cfg["spec"].get("bn_affine") or cfg["spec"].get("bn_trs"):
+    if s["arch"] in ("bn", "bn3"):
+        if cfg["spec"].get("bn_affine") or cfg["spec"].get("bn_trs") or s["arch"] == "bn3":
             return f"C02:sensitivity:BatchNorm(affine={bool(cfg['spec'].get('bn_affine'))},track_running_stats={bool(cfg['spec'].get('bn_trs'))})-accepted"
         return "C02:sensitivity:BatchNorm(affine=False)-accepted"
     if cfg["gsm_mode"] == "ghost":
@@ -644,8 +644,8 @@ def run(ctx):
             ctx.variant["bn_affine_false"] = "rejected-by-validation"
         # every other BatchNorm configuration in training mode couples the samples of a batch as well: whatever validation
         # accepts must satisfy the bound
-        for aff, trs in ((True, False), (True, True), (False, True)):
-            w = dict(D3_WITNESS, spec=dict(D3_WITNESS["spec"], bn_affine=aff, bn_trs=trs))
+        for aff, trs, arch in ((True, False, "bn"), (True, True, "bn"), (False, True, "bn"), (True, False, "bn3"), (True, True, "bn3")):
+            w = dict(D3_WITNESS, spec=dict(D3_WITNESS["spec"], bn_affine=aff, bn_trs=trs, arch=arch, T=4))
             ctx.count("witness:BatchNorm-variants")
             if bn_accepted(w["spec"]):
                 for mode in ("hooks", "ew"):
